@@ -9,7 +9,7 @@
 //! of the frame) the refresh may fail, but what is published stays a correct listing and the next fault-free
 //! refresh succeeds and satisfies the full oracle.
 use h_mock::c07_pager::splits;
-use mockcluster::wire::{ErrorBody, Opcode};
+use mockcluster::wire::{ErrorBody, Opcode, Request, Response};
 use mockcluster::{CloseKind, KeyspaceSpec, LogEntry, MockCluster, NodeSpec, Reply, TableSpec, systables};
 use scylla::client::session::Session;
 use scylla::client::session_builder::SessionBuilder;
@@ -20,6 +20,8 @@ use std::sync::{Arc, Mutex};
 use std::time::Duration;
 use vcore::Report;
 
+/// page requests that arrived with a zero-length paging state (vacuity guard for the empty-state cases)
+static EMPTY_STATES_SEEN: std::sync::atomic::AtomicU64 = std::sync::atomic::AtomicU64::new(0);
 const DEADLINE: Duration = Duration::from_secs(20);
 /// (table, rows as a function of the number of peers)
 const TABLES: [&str; 7] = ["system.peers", "system.local", "system_schema.keyspaces", "system_schema.tables", "system_schema.columns", "system_schema.views", "system_schema.types"];
@@ -41,10 +43,12 @@ struct CcCase {
     splits: BTreeMap<String, Vec<usize>>,
     /// (table, page, kind) kind in invalid | delay | reset
     fault: Option<(String, usize, String)>,
+    /// (table, k): the paging state returned with page k-1 of that table (asking for page k) is ZERO-LENGTH
+    empty: Option<(String, usize)>,
 }
 impl CcCase {
     fn json(&self) -> Value {
-        json!({"leg": "control", "peers": self.peers, "splits": self.splits, "fault": self.fault.as_ref().map(|(t, p, k)| json!([t, p, k]))})
+        json!({"leg": "control", "peers": self.peers, "splits": self.splits, "fault": self.fault.as_ref().map(|(t, p, k)| json!([t, p, k])), "empty_state": self.empty.as_ref().map(|(t, k)| json!([t, k]))})
     }
     fn from_json(v: &Value) -> Option<CcCase> {
         let splits = v["splits"].as_object()?.iter().map(|(k, s)| (k.clone(), s.as_array().map(|a| a.iter().map(|x| x.as_u64().unwrap_or(0) as usize).collect()).unwrap_or_default())).collect();
@@ -52,13 +56,18 @@ impl CcCase {
             Value::Array(a) if a.len() == 3 => Some((a[0].as_str()?.to_string(), a[1].as_u64()? as usize, a[2].as_str()?.to_string())),
             _ => None,
         };
-        Some(CcCase { peers: v["peers"].as_u64()? as usize, splits, fault })
+        let empty = match &v["empty_state"] {
+            Value::Array(a) if a.len() == 2 => Some((a[0].as_str()?.to_string(), a[1].as_u64()? as usize)),
+            _ => None,
+        };
+        Some(CcCase { peers: v["peers"].as_u64()? as usize, splits, fault, empty })
     }
 }
 
 #[derive(Default)]
 struct Shared {
     armed: Option<(String, usize, String)>,
+    empty: Option<(String, usize)>,
     fired: usize,
     counts: BTreeMap<String, usize>,
     cap: usize,
@@ -78,9 +87,10 @@ fn table_of(stmt: Option<&str>) -> Option<String> {
     let sel = systables::parse_select(stmt?)?;
     Some(format!("{}.{}", sel.keyspace, sel.table))
 }
-fn page_of_state(ps: &Option<Vec<u8>>) -> Option<usize> {
+fn page_of_state(ps: &Option<Vec<u8>>, empty_k: Option<usize>) -> Option<usize> {
     match ps {
         None => Some(0),
+        Some(b) if b.is_empty() => empty_k,
         Some(b) => std::str::from_utf8(b).ok()?.strip_prefix("mockpg:")?.parse().ok(),
     }
 }
@@ -98,34 +108,75 @@ impl World {
         for (t, s) in &first.splits {
             cluster.set_system_page_splits(t, Some(s.clone()));
         }
-        let shared: Arc<Mutex<Shared>> = Arc::new(Mutex::new(Shared { cap: 1_000_000, ..Default::default() }));
+        let shared: Arc<Mutex<Shared>> = Arc::new(Mutex::new(Shared { cap: 1_000_000, empty: first.empty.clone(), ..Default::default() }));
         let sh = shared.clone();
         cluster.handle(move |ctx| {
             let table = table_of(ctx.statement.as_deref())?;
             let params = ctx.params()?;
-            let page = page_of_state(&params.paging_state);
             let mut g = sh.lock().unwrap();
+            // zero-length paging state: for one table the state that asks for page k is the empty byte string
+            let empty_k: Option<usize> = g.empty.as_ref().filter(|(t, _)| *t == table).map(|(_, k)| *k);
+            let page = page_of_state(&params.paging_state, empty_k);
+            if params.paging_state.as_ref().map(|b| b.is_empty()).unwrap_or(false) {
+                EMPTY_STATES_SEEN.fetch_add(1, Ordering::Relaxed);
+            }
             let n = g.counts.entry(table.clone()).or_insert(0);
             *n += 1;
             if *n > g.cap {
                 g.capped = true;
                 return Some(Reply::error(ErrorBody::invalid("c07cc: request cap reached (runaway pager)")));
             }
+            // the built-in answer, with `mockpg:k` <-> zero-length translated in both directions
+            let serve = |ctx: &mockcluster::ReqCtx| -> Option<Reply> {
+                let k = empty_k?;
+                let mut req = ctx.request.clone();
+                if let Request::Execute { params, .. } | Request::Query { params, .. } = &mut req {
+                    if params.paging_state.as_ref().map(|b| b.is_empty()).unwrap_or(false) {
+                        params.paging_state = Some(format!("mockpg:{k}").into_bytes());
+                    }
+                }
+                let ctx2 = mockcluster::ReqCtx {
+                    cluster: ctx.cluster,
+                    node: ctx.node,
+                    conn: ctx.conn,
+                    shard: ctx.shard,
+                    stream: ctx.stream,
+                    request: &req,
+                    entry: ctx.entry,
+                    keyspace: ctx.keyspace.clone(),
+                    statement: ctx.statement.clone(),
+                    metadata_id: ctx.metadata_id,
+                    lwt_mark: ctx.lwt_mark,
+                };
+                let mut reply = ctx.cluster.builtin(&ctx2);
+                if let Reply::Frame(env) = &mut reply {
+                    if let Response::Rows(r) = &mut env.response {
+                        if r.metadata.paging_state.as_deref() == Some(format!("mockpg:{k}").as_bytes()) {
+                            r.metadata.paging_state = Some(Vec::new());
+                        }
+                    }
+                }
+                Some(reply)
+            };
             let hit = matches!((&g.armed, page), (Some((t, p, _)), Some(pg)) if *t == table && *p == pg) && ctx.opcode() == Opcode::Execute;
             if !hit {
-                return None;
+                drop(g);
+                return serve(ctx);
             }
             let (_, _, kind) = g.armed.take().unwrap();
             g.fired += 1;
             match kind.as_str() {
                 "invalid" => Some(Reply::error(ErrorBody::invalid("c07cc: scripted non-retryable error"))),
+                // as if the node had evicted the statement: the connection re-prepares and re-executes the same page
+                "unprepared" => Some(Reply::error(ErrorBody::unprepared(ctx.request.prepared_id().unwrap_or(&[])))),
                 "delay" => {
                     g.held.insert(ctx.entry.seq);
-                    None
+                    drop(g);
+                    serve(ctx)
                 }
                 "reset" => {
                     drop(g);
-                    match ctx.cluster.builtin(ctx) {
+                    match serve(ctx).unwrap_or_else(|| ctx.cluster.builtin(ctx)) {
                         Reply::Frame(env) => {
                             let len = env.encode_frame(ctx.stream).len();
                             let body = len - mockcluster::wire::HEADER_LEN;
@@ -186,7 +237,8 @@ impl World {
         out
     }
 
-    fn check_frames(&self, from: u64, case: &CcCase) -> Vec<(String, String)> {
+    /// `again`: (table, page) whose request is expected twice in a row (answered UNPREPARED, re-executed)
+    fn check_frames(&self, from: u64, case: &CcCase, again: Option<(&str, usize)>) -> Vec<(String, String)> {
         let mut per: BTreeMap<String, Vec<Option<usize>>> = BTreeMap::new();
         for e in self.cluster.log_since(from) {
             let Some(f) = e.frame() else { continue };
@@ -195,12 +247,18 @@ impl World {
             }
             let Some(t) = table_of(f.statement.as_deref()) else { continue };
             let Some(p) = f.request.params() else { continue };
-            per.entry(t).or_default().push(page_of_state(&p.paging_state));
+            let empty_k = case.empty.as_ref().filter(|(et, _)| *et == t).map(|(_, k)| *k);
+            per.entry(t).or_default().push(page_of_state(&p.paging_state, empty_k));
         }
         let mut out = Vec::new();
         for t in TABLES {
             let pages = case.splits.get(t).map(|s| s.len()).unwrap_or(1);
-            let want: Vec<Option<usize>> = (0..pages).map(Some).collect();
+            let mut want: Vec<Option<usize>> = (0..pages).map(Some).collect();
+            if let Some((at, ap)) = again {
+                if at == t && ap < pages {
+                    want.insert(ap, Some(ap));
+                }
+            }
             let got = per.get(t).cloned().unwrap_or_default();
             if got != want {
                 let key = if got.first().map(|p| *p != Some(0)).unwrap_or(false) { "control:frames:first-request-has-state" } else { "control:frames:wrong-paging-state" };
@@ -230,6 +288,7 @@ impl World {
         {
             let mut g = self.shared.lock().unwrap();
             g.armed = case.fault.clone();
+            g.empty = case.empty.clone();
             g.fired = 0;
             g.counts.clear();
             g.cap = 4 * total_pages + 16;
@@ -293,7 +352,7 @@ impl World {
                     Vec::new()
                 };
                 let lost: Vec<_> = must.iter().filter(|m| !got.contains(m)).collect();
-                if kind == "delay" || r.is_err() {
+                if kind == "delay" || kind == "unprepared" || r.is_err() {
                     // nothing failed (delay) / the refresh failed as a whole: the complete listing must stand
                     for (k, t) in full {
                         complaints.push((format!("{k}:after-{kind}"), t));
@@ -305,6 +364,14 @@ impl World {
                 } else {
                     outcome.push_str(":partial-listing-published");
                 }
+            }
+            if kind == "unprepared" {
+                // a transparent re-execute: the faulted refresh itself must show the exact request sequence, with
+                // the request for page p sent twice with the same state
+                if r.is_err() {
+                    complaints.push(("control:refresh-failed:after-unprepared".to_string(), format!("UNPREPARED on page {p} of {t} must be handled by re-preparing; the refresh failed: {:?}", r)));
+                }
+                complaints.extend(self.check_frames(from, case, Some((t.as_str(), *p))));
             }
             self.shared.lock().unwrap().counts.clear();
             from = self.cluster.log_len();
@@ -337,7 +404,7 @@ impl World {
         // after a connection reset the driver may fetch more than once (new control connection); the exact frame
         // sequence is judged on refreshes that follow no fault
         if case.fault.is_none() {
-            complaints.extend(self.check_frames(from, case));
+            complaints.extend(self.check_frames(from, case, None));
         }
         if self.shared.lock().unwrap().capped && complaints.is_empty() {
             return Err("request cap reached although every oracle held".into());
@@ -354,7 +421,16 @@ fn gen_cases(max_peers: usize, faults: bool, thorough: bool) -> Vec<CcCase> {
         for i in 0..n {
             // every table walks through ALL its splits (independently; the tables are read by independent pagers)
             let sp: BTreeMap<String, Vec<usize>> = lists.iter().map(|(t, l)| (t.to_string(), l[i % l.len()].clone())).collect();
-            v.push(CcCase { peers, splits: sp, fault: None });
+            v.push(CcCase { peers, splits: sp.clone(), fault: None, empty: None });
+            // the same refresh with a ZERO-LENGTH paging state at one position (rotating) of system.peers, and on the
+            // 2-node cluster of system_schema.columns
+            for t in ["system.peers", "system_schema.columns"] {
+                let pages = sp[t].len();
+                let list_len = lists.iter().find(|(x, _)| *x == t).unwrap().1.len();
+                if pages >= 2 && i < list_len && (t == "system.peers" || peers == 1) {
+                    v.push(CcCase { peers, splits: sp.clone(), fault: None, empty: Some((t.to_string(), 1 + i % (pages - 1))) });
+                }
+            }
         }
         if faults {
             // one fault on every page of the splits of system.peers: quick the 40 simplest splits per cluster size,
@@ -369,10 +445,10 @@ fn gen_cases(max_peers: usize, faults: bool, thorough: bool) -> Vec<CcCase> {
                 let l = &lists.iter().find(|(t, _)| *t == ft).unwrap().1;
                 for (i, s) in l.iter().take(cap).enumerate() {
                     for p in 0..s.len() {
-                        for kind in ["invalid", "delay", "reset"] {
+                        for kind in ["invalid", "delay", "reset", "unprepared"] {
                             let mut sp: BTreeMap<String, Vec<usize>> = lists.iter().map(|(t, l)| (t.to_string(), l[i % l.len()].clone())).collect();
                             sp.insert(ft.to_string(), s.clone());
-                            v.push(CcCase { peers, splits: sp, fault: Some((ft.to_string(), p, kind.to_string())) });
+                            v.push(CcCase { peers, splits: sp, fault: Some((ft.to_string(), p, kind.to_string())), empty: None });
                         }
                     }
                 }
@@ -514,7 +590,8 @@ fn main() {
         r.sample(c.json());
     }
     r.counters.add("cases_fault_free", cases.iter().filter(|c| c.fault.is_none()).count() as u64);
-    for k in ["invalid", "delay", "reset"] {
+    r.counters.add("cases_with_zero_length_paging_state", cases.iter().filter(|c| c.empty.is_some()).count() as u64);
+    for k in ["invalid", "delay", "reset", "unprepared"] {
         r.counters.add(&format!("cases_fault_{k}"), cases.iter().filter(|c| c.fault.as_ref().map(|f| f.2 == k).unwrap_or(false)).count() as u64);
     }
     for p in 0..=max_peers {
@@ -550,6 +627,7 @@ fn main() {
         r.counters.add(&format!("outcome_{}", k.replace(':', "_")), *v);
     }
     r.counters.add("worlds_built", g.worlds as u64);
+    r.counters.add("page_requests_with_zero_length_paging_state", EMPTY_STATES_SEEN.load(Ordering::Relaxed));
     r.counters.add("system_table_pages_served_in_checked_refreshes", g.pages_served);
     for (k, t, c) in &g.complaints {
         r.violation(k, t, c.clone());
